@@ -273,6 +273,11 @@ func (e *Env) selector(x *ast.SelectorExpr) Value {
 			return e.unknown(e.info().Types[x].Type, "methodvalue")
 		}
 		base := e.expr(x.X)
+		if base.K == VU {
+			// field of a foreign struct value (e.g. reflect.StructField.Name): unconstrained
+			e.w.trustedNote("fields of foreign struct values are unconstrained (" + exprString(x) + ")")
+			return e.unknown(e.info().Types[x].Type, "ffield")
+		}
 		return e.fieldPath(base, sel, x)
 	}
 	// qualified identifier
